@@ -32,28 +32,30 @@ var dbMutators = map[string]string{
 }
 
 // DBOps lists the mutation calls in fn.
-func DBOps(fn *ssa.Function) []DBOp {
+func DBOps(root *ssa.Function) []DBOp {
 	var out []DBOp
-	tb := newTB()
-	for _, c := range AllCalls(fn) {
-		name := CalleeName(c.Common())
-		kind, ok := dbMutators[name]
-		if !ok {
-			continue
-		}
-		op := DBOp{Fn: fn, Call: c, Kind: kind, Recv: name}
-		args := c.Common().Args
-		if !c.Common().IsInvoke() && len(args) > 0 {
-			args = args[1:] // drop receiver
-		}
-		if (kind == "Set" || kind == "Del") && len(args) >= 1 {
-			op.Key = tb.of(args[0], 0)
-			op.Family = keyFamily(op.Key)
-			if kind == "Set" && len(args) >= 2 {
-				op.Val = tb.of(args[1], 0)
+	rf := factsOf(root)
+	for _, fn := range funcAndHelpers(root) {
+		for _, c := range AllCalls(fn) {
+			name := CalleeName(c.Common())
+			kind, ok := dbMutators[name]
+			if !ok {
+				continue
 			}
+			op := DBOp{Fn: fn, Call: c, Kind: kind, Recv: name}
+			args := c.Common().Args
+			if !c.Common().IsInvoke() && len(args) > 0 {
+				args = args[1:] // drop receiver
+			}
+			if (kind == "Set" || kind == "Del") && len(args) >= 1 {
+				op.Key = rf.Term(args[0])
+				op.Family = keyFamily(op.Key)
+				if kind == "Set" && len(args) >= 2 {
+					op.Val = rf.Term(args[1])
+				}
+			}
+			out = append(out, op)
 		}
-		out = append(out, op)
 	}
 	return out
 }
